@@ -599,13 +599,17 @@ inline std::map<int, RankKey> refRank(World& W, const Invocation& inv,
     std::vector<ld> sorted = effs;
     std::sort(sorted.begin(), sorted.end());
     size_t n = sorted.size();
-    // two nearest-rank readings of "top growing_size_percentile by size"
+    // "the top growing_size_percentile by size": the largest (100-P) % of
+    // the siblings. When n*(100-P)/100 is integral that count is exact; when
+    // it is not, whether the boundary rank is rounded in or out is not
+    // documented: cutA includes it, cutB excludes it.
     ld cutA = 0, cutB = 0;
     if (n > 0 && pct > 0) {
-      size_t fromTop = (size_t)std::max<ld>(1, ceill(n * (100 - pct) / 100));
-      cutA = sorted[n - std::min(fromTop, n)];
-      size_t rank = (size_t)std::max<ld>(1, ceill(pct / 100 * n));
-      cutB = sorted[std::min(rank, n) - 1];
+      ld x = (ld)n * (100 - pct) / 100;
+      size_t hi = (size_t)std::max<ld>(1, ceill(x));
+      size_t lo = (size_t)std::max<ld>(1, floorl(x));
+      cutA = sorted[n - std::min(hi, n)];
+      cutB = sorted[n - std::min(lo, n)];
     }
     for (size_t i = 0; i < sibs.size(); i++) {
       Cg* c = sibs[i];
@@ -647,10 +651,12 @@ inline std::map<int, RankKey> refRank(World& W, const Invocation& inv,
     for (Cg* c : sibs) {
       RankKey k;
       k.pref = refPreference(*c);
-      k.eligible = (ld)c->swap_cur > thr;
-      ld v = (ld)c->swap_cur;
+      // an unreadable memory.swap.current is "no swap usage known": 0
+      ld sc = c->absent.count("memory.swap.current") ? 0 : (ld)c->swap_cur;
+      k.eligible = sc > thr;
+      ld v = sc;
       if (biased)
-        v = std::max<ld>(0, (ld)c->swap_cur - ratio * refProtection(W, *c));
+        v = std::max<ld>(0, sc - ratio * refProtection(W, *c));
       k.key = {v};
       out[c->inc] = k;
     }
@@ -661,6 +667,9 @@ inline std::map<int, RankKey> refRank(World& W, const Invocation& inv,
       k.pref = refPreference(*c);
       const Psi& p = io ? c->io_full : c->mem_full;
       k.key = {((ld)p.a10 + (ld)p.a60) / 2};
+      // no reading of the configured resource: ranked as 0
+      if (c->absent.count(io ? "io.pressure" : "memory.pressure"))
+        k.key = {0};
       out[c->inc] = k;
     }
   } else if (inv.plugin == "kill_by_io_cost") {
@@ -775,6 +784,10 @@ struct KillRun {
   }
 };
 
+// extra per-tick work of the property that drives the kill plan (runs before
+// the engine evaluates the tick)
+inline std::function<void()> g_killPlanOnTick;
+
 inline KillRun runKillPlan() {
   KillRun kr;
   Temporal temporal;
@@ -783,6 +796,8 @@ inline KillRun runKillPlan() {
   temporal.hdd = coeffsFrom(R.plan["hdd_coeffs"]);
   temporal.ssd = coeffsFrom(R.plan["ssd_coeffs"]);
   g_onTick = [&]() {
+    if (g_killPlanOnTick)
+      g_killPlanOnTick();
     temporal.sample(W, R.tick);
     kr.snaps.push_back(W);
     kr.temps.push_back(temporal);
